@@ -290,11 +290,16 @@ func (fr *Frame) assignsObligation(entry *MemState, ct *Contract) {
 		}
 	}
 	hasMem := false
+	mapsFree := false
 	for _, a := range ct.Assigns {
 		if a.Mem {
 			hasMem = true
 		}
+		if a.Maps {
+			mapsFree = true
+		}
 	}
+	fr.mapsFree = mapsFree
 	if !hasMem {
 		fr.goMemFrameObligation(entry, ct)
 	}
@@ -377,7 +382,7 @@ func (fr *Frame) goMemFrameObligation(entry *MemState, ct *Contract) {
 			return
 		}
 		for k := range r.mem.arrays {
-			if strings.HasPrefix(k, "M_") || strings.HasPrefix(k, "MH_") || strings.HasPrefix(k, "MV_") || k == "ML" {
+			if strings.HasPrefix(k, "M_") || (!fr.mapsFree && (strings.HasPrefix(k, "MH_") || strings.HasPrefix(k, "MV_") || k == "ML")) {
 				names[k] = true
 			}
 		}
